@@ -101,3 +101,24 @@ Print Assumptions C03_history.
 Theorem C03_fresh_related : forall root levels bstore, Rel root bstore levels Fresh cs_fresh.
 Proof. intros root levels bstore. exact (fresh_rel root bstore levels). Qed.
 Print Assumptions C03_fresh_related.
+
+(* ================= on files produced by the writer =================
+   W composed with R: for ANY configuration and ANY non-empty strictly ascending input on which the
+   writer model finishes, every admissible history of cursor operations on a fresh cursor over the
+   written file returns, operation by operation, exactly what the abstract cursor over the inserted
+   entries returns (aspec: a function of the entries and the logical position only). *)
+From Grenad.model Require Import Trailer Writer Reader Spec.
+From Grenad.proofs Require Import ReaderRefine WriterStore.
+
+Theorem C03_written_file_history : forall compress decompress c,
+  (forall b z, compress (wc_codec c) (wc_level c) b = Done z -> decompress (wc_codec c) z = Done b) ->
+  forall es i s lg m, wc_levels c < 256 -> 1 <= wc_interval c ->
+  w_run_gen vsink vs_wr vs_fl vs_count compress c vs_empty es = (i, Done (s, lg, m)) ->
+  es <> [] -> sorted_strictb (map fst es) = true ->
+  len (vs_bytes s) < 2^64 -> mem_ok lg ->
+  forall ops, adm_ops es Fresh ops ->
+  exists st rs, run_ops (load_block decompress (vs_bytes s) (m_codec m)) (m_root m) (m_levels m) cs_fresh ops = Done (st, rs) /\
+    Forall2 res_ok (snd (aspec_ops es Fresh ops)) rs /\
+    cs_loads st <= N.of_nat (length ops) * (2 * (m_levels m + 2)).
+Proof. exact written_file_history. Qed.
+Print Assumptions C03_written_file_history.
